@@ -59,6 +59,11 @@ def harnesses():
         for kb in (0, 1):
             out.append(H(f"c09_rel_{KN[ka]}_{KN[kb]}", "C09", "quick", f"relational({ka}, {kb})",
                          f"rel_{KN[ka]}_{KN[kb]}", f"left any {KN[ka]}, right any {KN[kb]}", timeout=600))
+    # ---- chars and short strings compare lexicographically
+    out.append(H("c09_rel_char_char", "C09", "quick", "relational_text(3, 3)", "rel_char_char", "left any char, right any char"))
+    for (x, y) in ((7, 8), (8, 8), (8, 7), (6, 7)):
+        out.append(H(f"c09_rel_str{x-6}_str{y-6}", "C09", "quick" if (x, y) == (8, 8) else "thorough", f"relational_text({x}, {y})",
+                     "rel_str_str", f"strings of {x-6} and {y-6} symbolic ASCII bytes", timeout=600))
     # ---- C06
     for k, n in {0: "bool", 1: "int", 2: "float", 3: "char", 4: "byte", 5: "null"}.items():
         out.append(H(f"c06_falsey_{n}", "C06", "quick", f"falsey_scalar({k})", f"falsey_{n}", f"any {n} value"))
